@@ -53,6 +53,33 @@ def run(ctx):
                 for corpus in ("mix", "tie"):
                     extra.append(dict(entry=entry, limit=lim, nlp=rnd.random() < 0.5, fuzzy=rnd.random() < 0.5, thr=0, ponly=False, pboost=False,
                                       allplat=corpus == "mix", plats=[], nocross=False, boost=False, query="lex", corpus=corpus, prime=prime))
+    # the semantic stage: an embedding index attached, intact and damaged (NaN / Inf / huge components in the vectors)
+    for corpus in ("sem", "semnan"):
+        for entry in ("universal", "cached"):
+            for nlp in (False, True):
+                for lim in (2, 10, 50):
+                    for qk in ("lex", "typo"):
+                        extra.append(dict(entry=entry, limit=lim, nlp=nlp, fuzzy=True, thr=0, ponly=False, pboost=False, allplat=True, plats=[],
+                                          nocross=False, boost=False, query=qk, corpus=corpus))
+    # scores that are equal on paper and differ in the last bits (same words in rotated fields)
+    words = ["alphaword", "bravoword", "charlieword"]
+    for variant in range(12):
+        for perm in ([0, 1, 2], [2, 1, 0], [1, 0, 2], [1, 2, 0]):
+            raw = " ".join(words[i] for i in perm)
+            for entry in ("search", "universal", "cached", "legacyoptions"):
+                extra.append(dict(entry=entry, limit=50, nlp=False, fuzzy=False, thr=0, ponly=False, pboost=False, allplat=True, plats=[],
+                                  nocross=False, boost=False, query="raw", raw=raw, corpus="neartie%d" % variant))
+    # the typo fallback with a pipeline boost in force (library callers combine them)
+    for entry in ("universal", "cached", "legacyfuzzy"):
+        for nlp in (False, True):
+            for raw in ("frobnicte", "frobnicat widgt", "wdgt nmbr"):
+                extra.append(dict(entry=entry, limit=50, nlp=nlp, fuzzy=True, thr=0, ponly=False, pboost=True, allplat=True, plats=[],
+                                  nocross=False, boost=False, query="raw", raw=raw, corpus="mix"))
+    for raw in ("blrptak", "cemvdiz", "dwyfnsk", "limv", "limvar", "robz", "obzuk", "glimvrn"):
+        for entry in ("universal", "cached"):
+            for nlp in (False, True):
+                extra.append(dict(entry=entry, limit=50, nlp=nlp, fuzzy=True, thr=0, ponly=False, pboost=True, allplat=True, plats=[],
+                                  nocross=False, boost=False, query="raw", raw=raw, corpus="uniq"))
     extra += shipped_scenarios(rnd, 60 if q else 1500)
     tr, info, ok, rej = engine.run_cases(ctx, scen + extra, ["C01"])
     for x in rej:
